@@ -233,6 +233,66 @@ theorem lifecycle_accessors {g : G} (h4 : Inv14 g) (hc : g.collected = true) (hd
     simp only [Peripheral.isRunning, beq_iff_eq] at hr
     exact hok.dx (Or.inr hr)
 
+/-! ### Turn order
+
+The cycle index (`cycle_state`) designates the peripheral whose turn it is.  `transmit_telegram` is
+only ever invoked on the peripheral the index designates (`visit_eq`); the three theorems below say
+how the index moves: within one poll through consecutive occupied slots (`turn_order_poll`), at the
+end of a poll / on a reply to the *next* occupied slot or — exactly when none follows — back to the
+start together with the `cycle_completed` report (`cycle_completed_poll`, `cycle_completed_reply`,
+`next_is_next_occupied`).  So between two `cycle_completed` reports the index passes every occupied
+slot once, in slot order; the composition of these step facts into a statement about whole histories
+is not formalised (see `not_proved`); the oracle checks it on every trace. -/
+
+/-- `turn_order` within one poll: starting with the cycle index at the occupied slot `o`, the loop
+invokes `Peripheral::transmit_telegram` on exactly the occupied slots from `o` up to the slot `e`
+that ends the loop — ascending, none skipped, none twice (`vs` are those that declined and were
+passed, `e` the last); the peripheral in `e` decides the outcome: a telegram (index stays at `e`: its
+turn continues with the reply / retransmissions), or no telegram with the index moving on. -/
+theorem turn_order_poll {fp : FdlParams} (hfp : FpOk fp) {m : Master} (hM : MInv fp m) {index o : Nat} {p : Peripheral}
+    (hcy : m.cycle = .dx index) (hc : curSlot m.slots index = some (o, p)) :
+    ∃ m1 vs index1 e pe, ReachV fp m m1 vs ∧ m1.cycle = .dx index1 ∧ curSlot m1.slots index1 = some (e, pe) ∧
+      vs ++ [e] = occIn m.slots o (e + 1) ∧ (∀ j, occupied m1.slots j = occupied m.slots j) ∧
+      (match pe.transmit fp m1.op with
+       | .send p' h pdu =>
+         Master.txLoop fp (m.slots.length + 1) m =
+           .send { m1 with slots := m1.slots.set e (some p'), lastEvents := {} } h pdu
+       | .decline p' ev =>
+         Master.txLoop fp (m.slots.length + 1) m = .none (afterDecline m1 index1 e pe p' ev) ∧
+         (ev = none → nextSlot m1.slots index1 = none)
+       | .panic => False) :=
+  poll_turns hfp hM hcy hc
+
+/-- `cycle_completed_once`, poll side: when a poll ends without telegram, `cycle_completed` is reported
+exactly when no occupied slot follows the last peripheral visited (the index then wraps to 0);
+otherwise the index moves to the next occupied slot and nothing is reported. -/
+theorem cycle_completed_poll (m1 : Master) (index1 e : Nat) (pe p' : Peripheral) (ev : Option PEvent)
+    (hend : ev = none → nextSlot m1.slots index1 = none) :
+    ((afterDecline m1 index1 e pe p' ev).lastEvents.cycleCompleted = true ↔ nextSlot m1.slots index1 = none) ∧
+    (nextSlot m1.slots index1 = none → (afterDecline m1 index1 e pe p' ev).cycle = .dx 0) ∧
+    (∀ n, nextSlot m1.slots index1 = some n → (afterDecline m1 index1 e pe p' ev).cycle = .dx n) :=
+  afterDecline_cycle m1 index1 e pe p' ev hend
+
+/-- `cycle_completed_once`, reply side: a reply ends the turn of the addressed peripheral; the index
+moves to the next occupied slot, or — exactly when none follows — the cycle is completed and reported. -/
+theorem cycle_completed_reply {fp : FdlParams} {g g' : G} (hI : Inv fp g) {a : UInt8} {t : Telegram}
+    (h : gstep fp g (.reply a t) = .ok g') :
+    ∃ index i p, g.m.cycle = .dx index ∧ curSlot g.m.slots index = some (i, p) ∧ p.address = a ∧
+      (g'.m.lastEvents.cycleCompleted = true ↔ nextSlot g.m.slots index = none) ∧
+      (nextSlot g.m.slots index = none → g'.m.cycle = .completed) ∧
+      (∀ n, nextSlot g.m.slots index = some n → g'.m.cycle = .dx n) := by
+  obtain ⟨index, i, p, p', ev, _, hcy, hc, hpa, _, _, rfl⟩ := reply_form hI h
+  exact ⟨index, i, p, hcy, hc, hpa, afterReply_cycle g.m index i p p' ev⟩
+
+/-- The slot the index moves to is the *next* occupied one (nothing occupied in between), and
+"none follows" means no later slot is occupied. -/
+theorem next_is_next_occupied {slots : List (Option Peripheral)} {index i : Nat} {p : Peripheral}
+    (hc : curSlot slots index = some (i, p)) :
+    (∀ n, nextSlot slots index = some n →
+      i < n ∧ occupied slots n = true ∧ ∀ k, i < k → k < n → occupied slots k = false) ∧
+    (nextSlot slots index = none → ∀ k, i < k → occupied slots k = false) :=
+  ⟨fun _ hn => nextSlot_is_next hc hn, fun hn => nextSlot_none_last hc hn⟩
+
 /-! ### Non-vacuity -/
 
 /-- The example bring-up collects after every poll: `collected` holds, the taken events are
